@@ -456,3 +456,15 @@ def run(ctx):
     c08.r3_no_moves_flag(ctx)
     c01.r8_hand_written_steps(ctx, "C05.R4")
     ctx.assumptions += ["the attack tables compute what C04 establishes (C04 must pass)", "both kings exist (legal positions)"]
+
+
+_run_before_shared_r6 = run
+
+
+def run(ctx):
+    _run_before_shared_r6(ctx)
+    # "no legal move exactly when mate or stalemate" rests on the legal generator and is_any_move_legal probing every
+    # pseudo-legal move with make / is_valid / unmake (shared with C01.R6): a fast path that accepts moves unprobed
+    # (pieces the king cannot see ...) misjudges the e.p. capture that removes two pawns from the king's line
+    from . import c01
+    c01.r6_legal_filter(ctx)
